@@ -65,3 +65,4 @@ LEVEL_TEXT = ('Exploration: each vector class that exists under each ISA build i
               'complete 32-bit domain for unary -, abs, sqrt. Binary/ternary operations and 64-bit types are sampled, not enumerated.')
 LEVEL_NOTE = 'trusted: host scalar arithmetic and libm sqrt; the vp_c08.h harness; ISAs are exercised only as far as this host can execute them'
 DESIGN_REF = 'DESIGN.md section 8 C08'
+THOROUGH_NATIVE = True      # this module's own thorough product (covering sample of 320 pairs) was soaked to silence
